@@ -198,6 +198,10 @@ class ExprMixin:
                         break
                     # later operands are evaluated only if this one is truthy (and) / falsy (or)
                     self.run.ctx.append(c if is_and else z3.Not(c))
+        except RaiseSig:
+            # an exception escaping from a later operand means that operand WAS evaluated: its guards hold on this path
+            self.run.pc.extend(self.run.ctx[saved:])
+            raise
         finally:
             del self.run.ctx[saved:]
         # result value: first falsy (and) / first truthy (or), else last
@@ -447,6 +451,9 @@ class ExprMixin:
             del self.run.ctx[saved:]
             self.run.ctx.append(z3.Not(cs))
             b = self.eval(e.orelse, fr)
+        except RaiseSig:
+            self.run.pc.extend(self.run.ctx[saved:])  # the raising branch was the one evaluated
+            raise
         finally:
             del self.run.ctx[saved:]
         try:
@@ -491,6 +498,7 @@ class ExprMixin:
         if isinstance(obj, VNode):
             return self.node_attr(obj, attr, lineno)
         if isinstance(obj, VClass):
+            self.resolve_vclass(obj)
             if isinstance(obj.info, ClassInfo):
                 r = self.class_attr(obj.info, attr, None)
                 if r is not None:
